@@ -1,14 +1,32 @@
+// The harness is built inside a generated Go workspace (scripts/build_worker.sh): the instrumented
+// scratch copy of samber/ro and its plugin modules, this module, and /verif/rosim.
 module roverif
 
 go 1.26
 
 require (
+	github.com/anishathalye/porcupine v1.3.0
+	github.com/prometheus/client_golang v1.16.0
+	github.com/prometheus/client_model v0.6.1
 	github.com/samber/lo v1.52.0
 	github.com/samber/ro v0.0.0
+	github.com/ulule/limiter/v3 v3.11.2
 	golang.org/x/exp v0.0.0-20240613232115-7f521ea00fb8
+	golang.org/x/sys v0.26.0
 	rosim v0.0.0
+	github.com/samber/ro/plugins/ratelimit/native v0.0.0
+	github.com/samber/ro/plugins/ratelimit/ulule v0.0.0
+	github.com/samber/ro/plugins/stdio v0.0.0
+	github.com/samber/ro/plugins/encoding/csv v0.0.0
+	github.com/samber/ro/plugins/encoding/base64 v0.0.0
+	github.com/samber/ro/plugins/encoding/json v0.0.0
+	github.com/samber/ro/plugins/encoding/gob v0.0.0
+	github.com/samber/ro/plugins/sort v0.0.0
+	github.com/samber/ro/plugins/strconv v0.0.0
+	github.com/samber/ro/plugins/regexp v0.0.0
+	github.com/samber/ro/plugins/strings v0.0.0
+	github.com/samber/ro/plugins/bytes v0.0.0
+	github.com/samber/ro/plugins/time v0.0.0
+	github.com/samber/ro/plugins/template v0.0.0
+	github.com/samber/ro/ee/plugins/prometheus v0.0.0
 )
-
-replace github.com/samber/ro => /repo
-
-replace rosim => /verif/rosim
